@@ -439,6 +439,11 @@ func c04Run(c *Ctx, k thriftCase) {
 			if i == 0 {
 				d = thrift.NewDecoder(rd)
 			} else {
+				if i%2 == 1 && len(enc[pn]) > 1 {
+					// a decode that fails half-way (truncated input) before the Reset: nothing of it may stay behind
+					d.Reset(protoOf(pn).NewReader(bytes.NewReader(enc[pn][:len(enc[pn])/2])))
+					protect(func() { d.Decode(reflect.New(t).Interface()) })
+				}
 				d.Reset(rd)
 			}
 			d.SetStrict(i%2 == 0)
